@@ -11,6 +11,12 @@
    the dust threshold, not locked by an owner the policy does not admit; no note twice; inputs = payments +
    change + fee in every step; the lock columns and get_locked_outputs equal the specification's lock
    state after every operation (all-or-nothing acquisition, owner-scoped unlock, clear, expiry).
+   Kept proposals -- possibly stale by then -- are turned into stored pending transactions with
+   create_proposed_transactions (default expiry, expiry at once, a little later, never): the transaction must
+   spend exactly the proposal's inputs (nullifiers), pay outputs + the proposal's fee out of them (outputs found
+   by trial decryption under the accounts' and the recipient's keys) and expire where asked; from then on its
+   inputs are out of the ledger and ineligible for every later proposal until it expires, its change counts as
+   pending; the environment later mines some of these transactions (or a conflicting spend of their inputs).
 3. The proposal validators (Step::from_parts, Proposal::multi_step / single_step, the protobuf decode path) are
    bound directly (checks/c08_validators.py, spec/Wallet/ProposalValid.tla): TLC enumerates valid and invalid
    step lists with the set of violated rules; verdict and error class of the real validators must agree.
@@ -49,6 +55,18 @@ def stats(path, tot):
                         tot["ok_admitting_locked"] = tot.get("ok_admitting_locked", 0) + 1
                     if sample is None:
                         sample = {k: r[k] for k in ("a", "res", "amount", "trusted", "untrusted", "lock", "admitted", "p")}
+            elif a == "create":
+                tot["create_" + r["res"]] = tot.get("create_" + r["res"], 0) + 1
+                for t in r["txs"]:
+                    tot.setdefault("_created_now", set()).add((0, t["t"]))
+                    if t["exp"] == -100:
+                        tot["created_never_expiring"] = tot.get("created_never_expiring", 0) + 1
+            elif a == "reset":
+                tot["_created_now"] = set()
+            elif a == "block":
+                for t in r["txs"]:
+                    if (0, t["t"]) in tot.get("_created_now", set()):
+                        tot["created_mined"] = tot.get("created_mined", 0) + 1
             elif a in ("lock", "unlock", "clearlocks"):
                 tot[a + "_" + r["res"]] = tot.get(a + "_" + r["res"], 0) + 1
             post = r.get("post") or {}
@@ -105,6 +123,9 @@ def run(ctx):
         path = drive(ctx, tbin, "t_base", ["10", "90"] if ctx.quick() else ["40", "110"], ctx.seed * 100 + 50, binary="c08_driver_t")
         stats(path, tot)
         validate(ctx, d, path, "t_base")
+    tot.pop("_created_now", None)
+    if not ctx.violations and (tot.get("create_ok", 0) < 8 or tot.get("created_mined", 0) < 2):
+        raise lib.ToolError("vacuity: too few stored pending transactions / none mined later: %s" % tot)
     if not ctx.violations and (tot.get("propose_ok", 0) < 25 or tot.get("ok_with_lock", 0) < 5 or tot.get("states_with_locks", 0) < 20
                                or tot.get("inputs_judged", 0) < 50):
         raise lib.ToolError("vacuity: too few successful proposals / locks in the trace: %s" % tot)
